@@ -16,27 +16,64 @@ def is_sym(x):
 # ----------------------------------------------------------------------------------------
 # helpers the AST pass calls
 # ----------------------------------------------------------------------------------------
+class SymKey(object):
+    """dictionary key standing for a symbolic value (hashed by identity; compared through .val by the helpers)"""
+
+    def __init__(self, val):
+        self.val = val
+
+    def __repr__(self):
+        return "SymKey(%r)" % (self.val,)
+
+
+def _kv(k):
+    return k.val if isinstance(k, SymKey) else k
+
+
+def _has_symkeys(b):
+    return isinstance(b, dict) and any(isinstance(k, SymKey) for k in b)
+
+
+def _same(a, k):
+    try:
+        r = a == _kv(k)
+    except Exception:
+        return False
+    return r is True or (r is not False and r is not NotImplemented and bool(r))
+
+
 def sym_in(a, b):
-    if is_sym(a) and isinstance(b, (dict, set, frozenset, tuple, list)):
+    if (is_sym(a) or _has_symkeys(b)) and isinstance(b, (dict, set, frozenset, tuple, list)):
         for k in list(b):
-            r = a == k
-            if r is True or (r is not False and bool(r)):
+            if _same(a, k):
                 return True
         return False
     return a in b
 
 
 def sym_getitem(b, a):
-    if is_sym(a):
+    if is_sym(a) or _has_symkeys(b):
         if isinstance(b, dict):
             for k in list(b):
-                r = a == k
-                if r is True or (r is not False and bool(r)):
+                if _same(a, k):
                     return b[k]
             raise KeyError(a)
         if isinstance(a, SymInt):
             return b[a.__index__()]
     return b[a]
+
+
+def sym_setitem(b, a, v):
+    if isinstance(b, dict) and (is_sym(a) or _has_symkeys(b)):
+        for k in list(b):
+            if _same(a, k):
+                b[k] = v
+                return
+        b[SymKey(a) if is_sym(a) else a] = v
+        return
+    if isinstance(a, SymInt) and isinstance(b, list):
+        a = a.__index__()
+    b[a] = v
 
 
 _FMT = re.compile(r"%(?:\((\w+)\))?([#0\- +]*)(\*|\d+)?(?:\.(\*|\d+))?([hlL])?([diouxXeEfFgGcrsa%])")
@@ -61,7 +98,11 @@ def sym_fmt(f, args):
         ai += 1
         spec = m.group(0)
         if is_sym(a):
-            if isinstance(a, SymNum):
+            if isinstance(a, SymInt) and spec in ("%X", "%x"):
+                from .symstr import hex_digits
+
+                out.append(hex_digits(a, spec == "%X"))
+            elif isinstance(a, SymNum):
                 out.append(cur().format_hole(a, spec))
             elif hasattr(a, "__sym_format__"):
                 out.append(a.__sym_format__(spec))
@@ -161,6 +202,29 @@ class MathShim(object):
                 raise ValueError("math domain error")
             return _LogVal(x)
         return _math.log(x, *base)
+
+    @staticmethod
+    def isclose(a, b, rel_tol=1e-09, abs_tol=0.0):
+        if not (is_sym(a) or is_sym(b)):
+            return _math.isclose(a, b, rel_tol=rel_tol, abs_tol=abs_tol)
+        if isinstance(a, SymFrac):
+            a = a.mat()
+        if isinstance(b, SymFrac):
+            b = b.mat()
+        # abs(a-b) <= max(rel_tol * max(|a|, |b|), abs_tol), by forks on the signs (exact real arithmetic)
+        e = cur()
+        d = a - b
+        if e.branch(d < 0):
+            d = -d
+        aa = a if (not isinstance(a, SymNum) or not e.branch(a < 0)) else -a
+        if not isinstance(a, SymNum) and a < 0:
+            aa = -a
+        bb = b if (not isinstance(b, SymNum) or not e.branch(b < 0)) else -b
+        if not isinstance(b, SymNum) and b < 0:
+            bb = -b
+        mx = aa if e.branch(aa >= bb) else bb
+        r = E.Or(d <= mx * rel_tol, d <= abs_tol)
+        return r if isinstance(r, bool) else e.branch(r)
 
     @staticmethod
     def trunc(x):
